@@ -59,7 +59,14 @@ let optimal_q (pairs : ((float * float) * float) list * ((float * float) * float
   let e = top_eigenvector [| row s0; row s1; row s2; row s3 |] in
   (((e.(0), e.(1)), e.(2)), e.(3))
 
-let eval (w : string array) : float list =
+let rec eval (w : string array) : float list =
+  if Array.length w > 3 && w.(0) = "W" then begin
+    (* W <period> <wrapAround> <scalar component line>: the component made periodic (cvc::wrap) *)
+    let per = fl w.(1) in let cen = fl w.(2) in
+    match eval (Array.sub w 3 (Array.length w - 3)) with
+    | [x] -> [if per = 0.0 then x else cvc_wrap fops cen per x]
+    | _ -> raise (Bad "W needs a scalar component")
+  end else
   let p = ref 1 in
   let next () = if !p >= Array.length w then raise (Bad "short") else (let s = w.(!p) in Stdlib.incr p; s) in
   let nf () = fl (next ()) in
